@@ -11,8 +11,9 @@ RULE = ("case = history of 1..5 sessions over {root, fresh/reused/nested "
         "sub-directory, multi-writer}, 1..3 splits, reopen-or-keep; after each "
         "session every split is read back through a fresh handle and compared "
         "byte-exactly with the model (before + written); a raising session is "
-        "a violation; Dataset.create over the existing dataset must raise and "
-        "leave the tree byte-identical. Non-trivial/distinct as for C04.")
+        "a violation; Dataset.create over the existing dataset - its path "
+        "spelled as str, Path, relative, dotted, through '..' and with '~' - "
+        "must raise and leave the tree byte-identical. Non-trivial/distinct as for C04.")
 ASSUMPTIONS = C.ASSUMPTIONS
 REAL_STUB = C.REAL_STUB
 
